@@ -4,6 +4,7 @@ import (
 	"bufio"
 	"bytes"
 	"crypto/sha256"
+	"encoding/base64"
 	"encoding/hex"
 	"encoding/json"
 	"fmt"
@@ -181,8 +182,13 @@ func runChild(mode string, c Case, dir string, killAt int64, extraEnv ...string)
 	cmd.Stdout = &out
 	cmd.Stderr = &out
 	err := cmd.Run()
-	res := childRun{started: -1, raw: out.String()}
-	sc := bufio.NewScanner(&out)
+	return parseChild(out.String(), err)
+}
+
+// parseChild turns what a child said before it ended (or was killed) into a childRun.
+func parseChild(raw string, err error) (childRun, error) {
+	res := childRun{started: -1, raw: raw}
+	sc := bufio.NewScanner(strings.NewReader(raw))
 	sc.Buffer(make([]byte, 1<<20), 1<<20)
 	for sc.Scan() {
 		f := strings.Fields(sc.Text())
@@ -247,6 +253,190 @@ type CrashCase struct {
 	// crash points are then sampled: Sample points inside every Commit step plus Sample over the rest
 	Bulk   bool `json:"bulk,omitempty"`
 	Sample int  `json:"sample,omitempty"`
+	// Timed (part "timed"): the parent kills the child from outside after a delay, so the kill lands anywhere -
+	// inside a Badger call, inside a file write, between two instructions of fs_db - not only at hook points.
+	// KillAtPermille are the delays, in thousandths of the duration of the uncrashed run (measured from the
+	// moment the child has opened the database).
+	Timed          bool  `json:"timed,omitempty"`
+	KillAtPermille []int `json:"kill_at_permille,omitempty"`
+	// Snapshot (replay of a timed kill, which cannot be re-enacted): the crashed directory (tar.gz, base64)
+	// together with what the child had said; the replay opens a copy and applies the same oracle.
+	Snapshot     string `json:"snapshot,omitempty"`
+	SnapAcked    int    `json:"snap_acked,omitempty"`
+	SnapStarted  int    `json:"snap_started,omitempty"`
+	SnapFailed   []int  `json:"snap_failed,omitempty"`
+	SnapPermille int    `json:"snap_permille,omitempty"`
+	// SnapDir: where the crashed directory lived. fs_db records absolute paths of content files, so the
+	// replay restores the snapshot at the same place (and removes it afterwards).
+	SnapDir string `json:"snap_dir,omitempty"`
+}
+
+// runChildTimed runs the workload in a child and kills it from outside delay after it reported "opened".
+func runChildTimed(c Case, dir string, delay time.Duration) (childRun, time.Duration, error) {
+	cf := filepath.Join(dir, "..", filepath.Base(dir)+".case.json")
+	b, _ := json.Marshal(c)
+	if err := os.WriteFile(cf, b, 0o644); err != nil {
+		return childRun{}, 0, err
+	}
+	defer os.Remove(cf)
+	cmd := exec.Command(os.Args[0], "-test.run", "^TestChildNoop$")
+	cmd.Env = append(os.Environ(), "VERIF_CHILD=crash", "VERIF_CHILD_CASE="+cf, "VERIF_CHILD_DIR="+dir, "VERIF_CHILD_KILLAT=0")
+	pr, pw, err := os.Pipe()
+	if err != nil {
+		return childRun{}, 0, err
+	}
+	cmd.Stdout = pw
+	cmd.Stderr = pw
+	if err := cmd.Start(); err != nil {
+		pw.Close()
+		pr.Close()
+		return childRun{}, 0, err
+	}
+	pw.Close()
+	var raw strings.Builder
+	var openedAt, endedAt time.Time
+	rd := bufio.NewReaderSize(pr, 1<<20)
+	var timer *time.Timer
+	for {
+		line, rerr := rd.ReadString('\n')
+		raw.WriteString(line)
+		if openedAt.IsZero() && strings.HasPrefix(line, "opened") {
+			openedAt = time.Now()
+			if delay >= 0 {
+				timer = time.AfterFunc(delay, func() { _ = cmd.Process.Kill() })
+			}
+		}
+		if strings.HasPrefix(line, "ack") {
+			// the span the delays are scaled to ends a little after the last acknowledgement (the quiet
+			// wait that follows would otherwise take most of the kills)
+			endedAt = time.Now().Add(8 * time.Millisecond)
+		}
+		if rerr != nil {
+			break
+		}
+	}
+	werr := cmd.Wait()
+	pr.Close()
+	if timer != nil {
+		timer.Stop()
+	}
+	var dur time.Duration
+	if !openedAt.IsZero() && !endedAt.IsZero() {
+		dur = endedAt.Sub(openedAt)
+	}
+	res, perr := parseChild(raw.String(), werr)
+	return res, dur, perr
+}
+
+func tarDir(dir string) (string, error) {
+	out, err := exec.Command("tar", "-C", dir, "--sparse", "-czf", "-", ".").Output()
+	if err != nil {
+		return "", err
+	}
+	return base64.StdEncoding.EncodeToString(out), nil
+}
+
+func untarDir(b64, dir string) error {
+	raw, err := base64.StdEncoding.DecodeString(b64)
+	if err != nil {
+		return err
+	}
+	if err := os.MkdirAll(dir, 0o755); err != nil {
+		return err
+	}
+	cmd := exec.Command("tar", "-C", dir, "-xzf", "-")
+	cmd.Stdin = bytes.NewReader(raw)
+	return cmd.Run()
+}
+
+// ExecC04Timed: kills from outside at generated moments of the run.
+func ExecC04Timed(cc CrashCase) *ev.Result {
+	r := &ev.Result{}
+	c := cc.Case
+	c.Prof = "c04"
+	base := filepath.Join(dbRoot(), fmt.Sprintf("c04t-%d-%d", os.Getpid(), dirCounter.Add(1)))
+	if err := os.MkdirAll(base, 0o755); err != nil {
+		panic(err)
+	}
+	defer os.RemoveAll(base)
+	if cc.Snapshot != "" {
+		// replay: judge the saved crashed directory
+		d := cc.SnapDir
+		if d == "" || !(strings.HasPrefix(d, "/dev/shm/") || strings.HasPrefix(d, os.TempDir()+"/")) {
+			panic("INFRA: replay file names no usable snapshot directory: " + d)
+		}
+		if _, err := os.Stat(d); err == nil {
+			panic("INFRA: the snapshot's directory exists already: " + d)
+		}
+		top := d
+		for filepath.Dir(top) != "/dev/shm" && filepath.Dir(top) != os.TempDir() && len(filepath.Dir(top)) > 1 {
+			if _, err := os.Stat(filepath.Dir(top)); err == nil {
+				break
+			}
+			top = filepath.Dir(top)
+		}
+		defer os.RemoveAll(top) // the topmost directory this replay had to create
+		if err := untarDir(cc.Snapshot, d); err != nil {
+			panic("INFRA: cannot unpack the snapshot: " + err.Error())
+		}
+		run := childRun{opened: true, acked: cc.SnapAcked, started: cc.SnapStarted, killed: true, failed: map[int]bool{}}
+		for _, i := range cc.SnapFailed {
+			run.failed[i] = true
+		}
+		judgeCrash(c, r, d, run, 0, 0, fmt.Sprintf("killed from outside at %d/1000 of the run (saved directory)", cc.SnapPermille))
+		return r
+	}
+	d0 := filepath.Join(base, "full")
+	os.MkdirAll(d0, 0o755)
+	full, dur, err := runChildTimed(c, d0, -1)
+	if err != nil || full.killed {
+		r.Failf("INFRA: uncrashed child run failed: %v", err)
+		panic(r.Fail)
+	}
+	if len(full.mismatch) > 0 {
+		r.Failf("uncrashed run disagrees with the reference model: %s", full.mismatch[0])
+		return r
+	}
+	os.RemoveAll(d0)
+	interior := 0
+	for _, pm := range cc.KillAtPermille {
+		d := filepath.Join(base, fmt.Sprintf("t%d-%d", pm, dirCounter.Add(1)))
+		os.MkdirAll(d, 0o755)
+		run, _, err := runChildTimed(c, d, dur*time.Duration(pm)/1000)
+		if err != nil {
+			r.Failf("INFRA: child run failed: %v", err)
+			panic(r.Fail)
+		}
+		r.Count("timed_kill_runs", 1)
+		if !run.killed {
+			os.RemoveAll(d)
+			r.Count("timed_kill_too_late", 1)
+			continue
+		}
+		if run.started >= 0 && run.acked < len(c.Ops) {
+			interior++
+		}
+		snap := d + ".snap"
+		if err := copyDir(d, snap); err != nil {
+			panic(err)
+		}
+		if !judgeCrash(c, r, d, run, 0, 0, fmt.Sprintf("killed from outside at %d/1000 of the run", pm)) {
+			rc := CrashCase{Case: cc.Case, Timed: true, SnapAcked: run.acked, SnapStarted: run.started, SnapPermille: pm, SnapDir: d}
+			for i := range run.failed {
+				rc.SnapFailed = append(rc.SnapFailed, i)
+			}
+			if b64, err := tarDir(snap); err == nil && len(b64) < 64<<20 {
+				rc.Snapshot = b64
+			}
+			r.ReplayCase = rc
+			return r
+		}
+		os.RemoveAll(snap)
+		os.RemoveAll(d)
+	}
+	r.NonTrivial = interior > 0
+	r.Count("interior_timed_kills", int64(interior))
+	return r
 }
 
 // addEmptyMemTable puts the crashed directory into the state a process leaves when it is killed inside
